@@ -20,7 +20,9 @@ PID = "C10"
 def build(chains, root):
     jobs = []
     for i, ch in enumerate(chains):
-        jobs.append(dict(cmd="run", lang="python", files={"p.py": ch.render()}, dir=os.path.join(root, "r%04d" % i), settings=T.SETTINGS_SPLIT if ch.split else T.SETTINGS,
+        js = ch.lang == "javascript"
+        jobs.append(dict(cmd="run", lang=ch.lang, files={"p.js" if js else "p.py": ch.render()}, dir=os.path.join(root, "r%04d" % i),
+                         settings=T.SETTINGS_JS if js else (T.SETTINGS_SPLIT if ch.split else T.SETTINGS),
                          flags=["--nomock"], export=["gir", "taint"], timeout=900, _chain=ch))
     return jobs
 
@@ -39,7 +41,7 @@ def run(tier, seed):
     t0 = time.time()
     v = C.Verdict(PID)
     root = C.scratch("c10")
-    chains = T.universe(tier, seed)
+    chains = T.universe(tier, seed) + T.js_universe(tier, seed)
     jobs = build(chains, root)
     res = C.lian_batch(jobs)
     cases = []
